@@ -33,8 +33,11 @@ COLS = ['chromosome', 'start', 'end', 'gene', 'log2', 'depth', 'weight']
 UNPROVED = [
     'noisy sex inference (bin noise sd 0.01..0.3, 40..400 chrX bins): statistical; compare_sex_chromosomes / guess_xx / '
     'do_sex are run on generated samples of the quantifier and every wrong call is reported as a concrete failing input; '
-    'the theorem C15_sex_idealised covers the noise-free sample, C15_sex_arith the decision arithmetic for every '
-    'median-test outcome within its contract',
+    'the theorems C15_sex_idealised / C15_sex_idealised_build cover the noise-free sample for every reference sex x PAR build, '
+    'C15_sex_arith the decision arithmetic for every median-test outcome within its contract; a third of the noisy samples '
+    'carry PAR-X / PAR-Y bins and are judged under a PAR build',
+    'do_sex: C15_do_sex_row / _rows / _columns / _sign state the table before number formatting; the "%.3g" rendering of the two '
+    'ratios is compared as text with the code (same_3g), not modelled',
     "mode: the Gaussian-KDE arg-max index is an oracle (scipy.stats.gaussian_kde); C15_zero_mode holds for every index "
     "function that is invariant under a common shift of the sorted values; the KDE itself is sampled",
     "Mood's median test: the contingency table is modelled exactly, the G statistic (scipy chi2_contingency, "
@@ -844,6 +847,32 @@ def gen_sexed_sample(rng, sex, hap, with_y, with_w, sd, nx, style, tier):
     return rows
 
 
+def with_par_bins(rng, rows, build, style, sd, n=None):
+    """the same sample as seen with a PAR build: bins inside PAR1X / PAR2X sit at the autosomal level for both sexes
+    (two copies), bins inside PAR1Y / PAR2Y -- when the sample has chrY bins -- carry no reads (everything maps to X)"""
+    pre = 'chr' if style == 'chr' else ''
+    tab = par_tables()[build.lower()]
+    def noisy(level):
+        return level + (F(round(rng.gauss(0.0, sd) * GRID), GRID) if sd > 0 else 0)
+    out = list(rows)
+    n = n if n is not None else rng.randint(1, 6)
+    for key in ('PAR1X', 'PAR2X'):
+        s0, e0 = tab[key]
+        a = s0 + rng.choice([0, 0, 1000])
+        for _ in range(n if key == 'PAR1X' else rng.randint(0, 2)):
+            if a + 500 > e0:
+                break
+            out.append((pre + 'X', a, a + 500, 'g', noisy(F(0)), F(10), rng.choice([F(1), grid(rng, 0.1, 1)])))
+            a += 20000
+    if any(r[0] == pre + 'Y' for r in rows):
+        s0, e0 = tab['PAR1Y']
+        a = s0 + rng.choice([0, 500])
+        for _ in range(rng.randint(0, 3)):
+            out.append((pre + 'Y', a, a + 500, 'g', F(-20), F(0), F(1)))
+            a += 20000
+    return out
+
+
 def shift_oracle(ck, rows, hd, hw, hap, is_xx, build, case, guessed_from=None):
     """shift_xx: X bins -- outside PAR1X/PAR2X when a PAR build is given, those already sit at the autosomal level --
     move by -1 (female, male reference), +1 (male, female reference), else not; others never"""
@@ -869,7 +898,7 @@ def check_sex(ck):
     tier = ck.tier
     batch = SexBatch(ck)
     shift_reqs, shift_codes, shift_cases = [], [], []
-    n_samples = 150 if tier == 'quick' else 3000
+    n_samples = 480 if tier == 'quick' else 4500
 
     def add_shift(rows, hd, hw, hap, is_xx, build, case, guess=None):
         code = shift_oracle(ck, rows, hd, hw, hap, is_xx, build, case, guessed_from=guess)
@@ -903,6 +932,9 @@ def check_sex(ck):
                         prow = [(pre + 'X', s, e, 'g', F(0), F(10), F(1)) for (s, e) in x_positions(rng, build, 4)
                                 if py_in_par(build, ('PAR1X', 'PAR2X'), s, e)]
                         rows2 = rows + prow
+                        rows3 = with_par_bins(rng, rows, build, style, 0)
+                        info3 = dict(info, build=build)
+                        batch.add(rows3, True, with_w, hap, build, 'sex:idealised:par', truth=sex, info=info3)
                         case = {'kind': 'shift_xx', 'rows': case_rows(rows2), 'has_weight': with_w, 'hap': hap, 'is_xx': sex == 'f', 'build': build}
                         add_shift(rows2, True, with_w, hap, sex == 'f', build, case)
                         xs = [F(c) for c, r in zip(shift_codes[-1], rows2) if r[0] == xl]
@@ -920,13 +952,19 @@ def check_sex(ck):
         style = rng.choice(['chr', 'plain'])
         rows = gen_sexed_sample(rng, sex, hap, with_y, with_w, sd, nx, style, tier)
         info = {'sex': sex, 'hap': hap, 'with_y': with_y, 'weights': with_w, 'sd': sd, 'nx': nx}
-        batch.add(rows, True, with_w, hap, None, 'sex:noisy:%s:%s%s%s' % (sex, 'malref' if hap else 'femref',
-                  ':Y' if with_y else '', ':w' if with_w else ''), truth=sex, info=info)
+        nbuild = None
+        if i % 3 == 2:
+            # the quantifier's "x PAR genome": the same kind of sample with PAR-X bins at the autosomal level
+            nbuild = rng.choice(['grch37', 'grch38', 'GRCh38'])
+            rows = with_par_bins(rng, rows, nbuild, style, sd)
+            info['build'] = nbuild
+        batch.add(rows, True, with_w, hap, nbuild, 'sex:noisy:%s:%s%s%s%s' % (sex, 'malref' if hap else 'femref',
+                  ':Y' if with_y else '', ':w' if with_w else '', ':par' if nbuild else ''), truth=sex, info=info)
         if i % 5 == 0:
             code = batch.items[-1][-1] if batch.items else None
             if isinstance(code, dict) and code.get('guess_xx') is not None:
-                case = {'kind': 'shift_xx', 'rows': case_rows(rows), 'has_weight': with_w, 'hap': hap, 'is_xx': None, 'build': None}
-                add_shift(rows, True, with_w, hap, None, None, case, guess=code['guess_xx'])
+                case = {'kind': 'shift_xx', 'rows': case_rows(rows), 'has_weight': with_w, 'hap': hap, 'is_xx': None, 'build': nbuild}
+                add_shift(rows, True, with_w, hap, None, nbuild, case, guess=code['guess_xx'])
         if len(batch.items) >= 200:
             batch.flush()
     # correspondence-only: small / odd tables, PAR builds, no X, no numeric names, ties, zero weights
@@ -953,6 +991,94 @@ def check_sex(ck):
         ck.count(case, nontrivial=True, cls='shift_xx')
         if isinstance(m, Err) or len(m) != len(code) or any(F(c) != x for c, x in zip(code, m)):
             ck.tie_break('shift_xx: code and model differ', case, code=code, model=vlib.jsonable(m))
+
+
+def check_do_sex_tables(ck):
+    """commands.do_sex on 1..4 tables at once: the whole DataFrame (columns, number and order of rows, sample names,
+    sex labels, printed ratios) against the direct oracle (compare_sex_chromosomes per table) and the model table"""
+    from cnvlib.commands import do_sex
+    rng, tier = ck.rng, ck.tier
+    jobs = []
+    for i in range(40 if tier == 'quick' else 600):
+        build = rng.choice([None, None, 'grch37', 'grch38'])
+        hap = rng.random() < 0.5
+        tables = []
+        for j in range(rng.randint(1, 4)):
+            r = rng.random()
+            if r < 0.45:
+                sex = rng.choice('mf')
+                style = rng.choice(['chr', 'plain'])
+                with_w = rng.random() < 0.5
+                rows = gen_sexed_sample(rng, sex, hap, rng.random() < 0.6, with_w, rng.choice([0, 0.05, 0.3]), rng.randint(40, 60), style, 'quick')
+                if build:
+                    rows = with_par_bins(rng, rows, build, style, 0)
+                hd, hw = True, with_w
+            elif r < 0.9:
+                rows, hd, hw, _ = gen_table(rng, tier, build, max_bins=rng.choice([3, 6, 12]), max_chroms=6)
+            else:
+                rows, hd, hw = [], False, False
+            meta = {'sample_id': 'id%d_%d' % (i, j)}
+            if rng.random() < 0.5:
+                meta['filename'] = rng.choice(['/data/run %d/s%d.cnr' % (i, j), 's%d.cnn' % j, 'x.cnr'])
+            tables.append((rows, hd, hw, meta))
+        try:
+            tab = do_sex([mk_cna(rows, hd, hw, meta) for rows, hd, hw, meta in tables], hap, build)
+            code = {'columns': [str(c) for c in tab.columns],
+                    'rows': [[str(tab[c].iat[k]) for c in tab.columns] for k in range(len(tab))]}
+        except AssertionError:
+            code = Err('Assertion')
+        jobs.append((hap, build, tables, code))
+    reqs = []
+    for hap, build, tables, code in jobs:
+        gt = []
+        for rows, hd, hw, meta in tables:
+            for t in (sex_tables(rows, hap, build) if not isinstance(code, Err) else []):
+                if t[0] not in [g[0] for g in gt]:
+                    gt.append(t)
+        reqs.append([hap, build, gt, [[meta.get('filename') or meta['sample_id'], model_bins(rows, hd, hw)]
+                                      for rows, hd, hw, meta in tables]])
+    res = vlib.model_batch_parallel('c15_do_sex_table', reqs)
+    for (hap, build, tables, code), m in zip(jobs, res):
+        case = {'kind': 'do_sex_table', 'hap': hap, 'build': build,
+                'tables': [{'rows': case_rows(rows), 'has_depth': hd, 'has_weight': hw, 'meta': meta} for rows, hd, hw, meta in tables]}
+        ck.count(case, nontrivial=len(tables) > 1, cls='do_sex:%d-tables%s' % (len(tables), ':par' if build else ''))
+        if isinstance(code, Err) or isinstance(m, Err):
+            if code != m:
+                ck.tie_break('do_sex: code and model disagree on the error', case, code=code, model=vlib.jsonable(m))
+            continue
+        # direct oracle: one row per table, in order; name; label and ratios from compare_sex_chromosomes on that table
+        ok = code['columns'] == ['sample', 'sex', 'X_logratio', 'Y_logratio'] and len(code['rows']) == len(tables)
+        exp = []
+        for rows, hd, hw, meta in tables:
+            is_xy, stats = mk_cna(rows, hd, hw).compare_sex_chromosomes(hap, build)
+            exp.append([meta.get('filename') or meta['sample_id'], 'Male' if is_xy else 'Female',
+                        strsign(stats['chrx_ratio']) if stats else 'NA', strsign(stats['chry_ratio']) if stats else 'NA'])
+        if not ok or code['rows'] != exp:
+            ck.violation('the sex report is not one row per input (name, sex, signed X and Y log-ratios) in the order given', case,
+                         code=code, expected=exp, clause='C15_do_sex_row')
+            continue
+        # model
+        mcols, mrows = m
+        good = mcols == code['columns'] and len(mrows) == len(code['rows'])
+        amb = False
+        for cr, mr in zip(code['rows'], mrows if good else []):
+            if cr[0] != mr[0]:
+                good = False
+            if mr[2] is None:
+                good = good and cr[1] == mr[1] and cr[2] == 'NA' and cr[3] == 'NA'
+                continue
+            x, y, px, py = mr[2]
+            if cr[1] != mr[1]:
+                amb = True          # the decision itself: left to the per-table stream, which handles scores next to 1
+                continue
+            good = good and same_3g(cr[2], x) and same_3g(cr[3], y)
+            good = good and (cr[2].startswith('+') == bool(px) or abs(float(x)) < 1e-9)
+            if y is not None:
+                good = good and (cr[3].startswith('+') == bool(py) or abs(float(y)) < 1e-9)
+        if amb:
+            ck.float_ambiguous += 1
+        elif not good:
+            ck.tie_break('do_sex: the table of the code and of the model differ', case, code=code, model=vlib.jsonable(m))
 
 
 # ----------------------------------------------------------------------------------------------
@@ -1111,7 +1237,9 @@ def run(ck, scratch):
                'center:biweight:model-skipped). autosome-name rule on curated + random names; the four estimators on plain '
                'lists (move with the data; code vs model). sex: noise-free and noisy (sd 0.01..0.3, '
                '40..400 X bins) samples of sex x reference x Y x weights, plus small odd tables (ties, PAR builds, no X) compared '
-               'with the model fed scipy G statistics; shift_xx and expect_flat_log2 on the same tables. '
+               'with the model fed scipy G statistics; every third noisy sample and every noise-free one also under a PAR build (PAR-X bins at '
+               'the autosomal level, PAR-Y bins without reads); shift_xx and expect_flat_log2 on the same tables; do_sex on 1..4 tables at once '
+               '(whole DataFrame: columns, row order, names, labels, printed ratios). '
                'non-trivial = a bin is selected and the estimator of the result is checked to be 0 (centring), X bins present (sex, flat); '
                'distinct by case hash')
     ck.unproved_remainder = list(UNPROVED)
@@ -1125,6 +1253,7 @@ def run(ck, scratch):
     check_center(ck)
     check_flat(ck)
     check_sex(ck)
+    check_do_sex_tables(ck)
 
 
 def replay(ck, body):
@@ -1134,6 +1263,19 @@ def replay(ck, body):
         print('tie-break / obligation replay (no input case):', body.get('what'))
         return 1
     cb, sb = CenterBatch(ck), SexBatch(ck)
+    if case['kind'] == 'do_sex_table':
+        from cnvlib.commands import do_sex
+        tabs = [(rows_of_case(t['rows']), t['has_depth'], t['has_weight'], t['meta']) for t in case['tables']]
+        tab = do_sex([mk_cna(*t) for t in tabs], case['hap'], case['build'])
+        exp = []
+        for rows, hd, hw, meta in tabs:
+            is_xy, stats = mk_cna(rows, hd, hw).compare_sex_chromosomes(case['hap'], case['build'])
+            exp.append([meta.get('filename') or meta['sample_id'], 'Male' if is_xy else 'Female',
+                        strsign(stats['chrx_ratio']) if stats else 'NA', strsign(stats['chry_ratio']) if stats else 'NA'])
+        got = [[str(tab[c].iat[k]) for c in tab.columns] for k in range(len(tab))]
+        ok = list(tab.columns) == ['sample', 'sex', 'X_logratio', 'Y_logratio'] and got == exp
+        print('replayed do_sex table %s' % ('passes on the current tree' if ok else 'still differs'))
+        return 0 if ok else 1
     run_case(ck, case, cb, sb)
     cb.flush()
     sb.flush()
